@@ -9,11 +9,13 @@ import builtins
 from .report import AnalysisError
 
 RAW_KINDS = ["int", "float", "bool", "str", "list0", "list1", "tuple0", "tuple1", "dict0", "dict1", "command"]
-EXTRA_KINDS = {"DataTypeParameter": ["type"], "DataParameter": ["ndarray"]}
+# "number": a numbers.Number that is none of int / float / bool (numpy.float32, fractions.Fraction, decimal.Decimal): what the
+# programming interface may hand to a numeric parameter; int() of it truncates, float() of it rounds
+EXTRA_KINDS = {"DataTypeParameter": ["type"], "DataParameter": ["ndarray"], "NumberParameter": ["number"]}
 DOC_KINDS = {
     "Parameter": None,
     "StringParameter": {"str"},
-    "NumberParameter": {"int", "float", "bool"},
+    "NumberParameter": {"int", "float", "bool", "number"},
     "BooleanParameter": {"bool"},
     "PathParameter": {"str"},
     "ResultParameter": {"command"},
@@ -291,12 +293,14 @@ class Runner(object):
 
     # ---------------------------------------------------------------- tests (kind narrowing)
     def isinstance_kinds(self, e, fi):
+        if isinstance(e, ast.BinOp) and isinstance(e.op, ast.Add):
+            return self.isinstance_kinds(e.left, fi) | self.isinstance_kinds(e.right, fi)  # tuples of classes joined with +
         elts = e.elts if isinstance(e, ast.Tuple) else [e]
         out = set()
         for x in elts:
             q = self.idx.qualname(fi.module, x, fi) or _src(x)
             m = {
-                "numbers.Number": NUMERIC, "builtins.bool": {"bool"}, "builtins.int": {"int", "bool"}, "builtins.float": {"float"},
+                "numbers.Number": NUMERIC | {"number"}, "numbers.Real": NUMERIC | {"number"}, "numbers.Integral": {"int", "bool"}, "builtins.bool": {"bool"}, "builtins.int": {"int", "bool"}, "builtins.float": {"float"},
                 "six.string_types": {"str"}, "builtins.str": {"str"}, "six.text_type": {"str"}, "builtins.bytes": set(),
                 "builtins.list": LISTS, "builtins.tuple": TUPLES, "builtins.dict": DICTS, "numpy.ndarray": {"ndarray"},
                 "builtins.type": {"type"}, "six.integer_types": {"int", "bool"},
@@ -822,6 +826,10 @@ class Runner(object):
             if a0 is None:
                 return V({short})
             prov = "conv:%s:%s" % (short, "raw" if a0.ident else "derived")
+            if k == {"number"}:
+                # int(Fraction(3, 4)) is 0, float(Decimal("0.1")) is a rounded binary float: a conversion, not the value itself
+                self.may_raise(["builtins.OverflowError", "builtins.ValueError"], e)
+                return V({short}, tag=prov)
             if k <= NUMERIC:
                 if short == "int" and "float" in k and a0.tag != "finite":
                     # a float can be inf or nan (`1e999` lexes as a FLOAT and is inf; float("nan") from text): int() of those raises
